@@ -78,6 +78,44 @@ Section TextHeader.
             end
         end
     end.
+
+  (* VCF since `fix:` ae9f807: read_header BREAKS out of the line loop as soon as parse_partial
+     returns Entry::Header (the line the parser takes for #CHROM: [done] on the state after that
+     line).  The bytes behind that line stay unread - also when they start with the prefix - and
+     the source is not touched again: neither a later '#' line nor the error of a failing source
+     behind the #CHROM line reaches read_header.  Before the stop the discipline is the one of
+     [text_read_header]: complete lines are parsed in order; a last line without LF is parsed on a
+     source that ends and is the source's error on a source that fails; at the end of the
+     delivered data behind a complete line the adapter peeks (the source's outcome decides). *)
+  Variable done : St -> bool.
+
+  Fixpoint th_sw (after : stop) (raws : list (list N)) (rest : list N) (st : St) : hres H :=
+    match raws with
+    | [] =>
+        match after, rest with
+        | Err e, [] => HErr e
+        | _, _ => match finish st with None => HErr InvalidData | Some h => HOk h rest end
+        end
+    | raw :: r =>
+        match after, Io.BufReader.ends_with Io.BufReader.LF raw with
+        | Err e, false => HErr e
+        | _, _ =>
+            match parse_line st (Io.BufReader.strip_eol raw) with
+            | None => HErr InvalidData
+            | Some st' =>
+                if done st' then
+                  match finish st' with
+                  | None => HErr InvalidData
+                  | Some h => HOk h (concat r ++ rest)
+                  end
+                else th_sw after r rest st'
+            end
+        end
+    end.
+
+  Definition text_read_header_sw (after : stop) (d : list N) : hres H :=
+    let '(raws, rest) := Io.HeaderRead.hdr_closed (S (length d)) prefix d in
+    th_sw after raws rest init.
 End TextHeader.
 
 (* SAM: the concrete header parser of C06 *)
@@ -87,9 +125,10 @@ Definition sam_text_read_header : stop -> list N -> hres Sam.Header.header :=
 
 (* VCF: the header parser as a table (see Header.v tab_parse_line); finish accepts exactly when
    the last line of the written header (the #CHROM line, index nfin - 1) was parsed, whole or in
-   part *)
+   part; since ae9f807 the reader stops behind that line ([text_read_header_sw], done = the state
+   after line nfin - 1) *)
 Definition vcf_text_read_header (tab : list (N * list N)) (nfin : N) : stop -> list N -> hres N :=
-  text_read_header 35 N N 0 (tab_parse_line tab) (tab_finish nfin).
+  text_read_header_sw 35 N N 0 (tab_parse_line tab) (tab_finish nfin) (fun i => i =? nfin).
 
 (* observations for the correspondence check: plain text and bgzipped text, header included.
    The header is observed through a short canonical form (SAM: the text C06's writer prints for
